@@ -15,16 +15,13 @@ pub fn last_panic_loc() -> String {
 mod ops;
 mod opts;
 mod tree;
+// component op modules: add `mod ops_<name>;` here and its dispatch function to COMPONENTS
+// (signature: fn(op: &str, args: &[String]) -> Option<String>; None = not mine)
 mod ops_anchors;
-// component op modules: add `mod ops_<name>;` here and its dispatch function to COMPONENTS
-// (signature: fn(op: &str, args: &[String]) -> Option<String>; None = not mine)
-
-pub const COMPONENTS: &[fn(&str, &[String]) -> Option<String>] = &[ops_anchors::dispatch];
 mod ops_arena;
-// component op modules: add `mod ops_<name>;` here and its dispatch function to COMPONENTS
-// (signature: fn(op: &str, args: &[String]) -> Option<String>; None = not mine)
 
 pub const COMPONENTS: &[fn(&str, &[String]) -> Option<String>] = &[
+    ops_anchors::dispatch,
     ops_arena::dispatch,
 ];
 
